@@ -15,6 +15,11 @@ for m in MODULES:
                 props |= set(cl.props)
         except Exception:
             pass
+        if getattr(C, 'cls', None) in ('buffer', 'combine_latest', 'delay', 'latest', 'partition', 'rate_limit', 'sliding_window',
+                                       'timed_window', 'union', 'zip') and m.startswith('contracts.c_') and 'init' not in m:
+            # streamz/dask.py re-exports these nodes unchanged for Dask pipelines (`class X(DaskStream, core.X): pass`, checked
+            # syntactically in c_dask.py): their step contracts are what makes the Dask pipeline equivalent to the local one
+            props.add('C20')
         if 'C03' in props:
             # what a step hands back to the emitter (C03) is also what makes asynchronous consumers run at all (C02) and what
             # carries their failures back (C16)
